@@ -89,5 +89,4 @@ TemplateSpecOf(T) ==
       [] T.t = "nulldata"   -> NullData(T.d)
       [] T.t = "witprog"    -> WitnessProgram(T.v, T.p)
       [] T.t = "nested"     -> P2SH_P2WPKH(T.h)
-AllCases == UNION {Successors(p.a) : p \in Parts}
 =============================================================================
